@@ -21,7 +21,7 @@ import (
 func Harness_C12_getSTH() {
 	srv := &c12Server{}
 	c, key := c12Client(srv, true)
-	status := []int{200, 200, 403, 500}[vChoice("status", 4)]
+	status := c12Status()
 	kind := vChoice("body", 4) // good | not json | truncated signature | trailing bytes
 	hl := []int{0, 31, 32, 33}[vChoice("hash-len", 4)]
 	root := vBytes("root", hl)
@@ -67,7 +67,7 @@ func Harness_C12_getSTH() {
 func Harness_C12_readMethods() {
 	srv := &c12Server{}
 	c, _ := c12Client(srv, false)
-	status := []int{200, 200, 404, 429, 500}[vChoice("status", 5)]
+	status := c12Status()
 	garbage := vChoice("garbage-body", 2) == 1
 	truncated := vChoice("body-read-fails", 2) == 1 // the connection drops while the body is read
 	which := vChoice("method", 3)
@@ -137,3 +137,13 @@ func (b *c12BrokenBody) Read(p []byte) (int, error) {
 	return 0, errors.New("unexpected EOF")
 }
 func (b *c12BrokenBody) Close() error { return nil }
+
+// c12Status: 200, or any other status code a server can send (symbolic).
+func c12Status() int {
+	if vChoice("status-ok", 2) == 0 {
+		return 200
+	}
+	s := int(vU16("status"))
+	vAssume(s >= 100 && s <= 599 && s != 200)
+	return s
+}
